@@ -61,7 +61,8 @@ pub trait Obj {
     /// size in bytes of one call unit: block size for block-level objects (1 for cfb8), 1 for byte level
     fn unit(&self) -> usize;
     /// block-level call. `junk == None`: in place, else buffer-to-buffer into a buffer holding `junk`
-    fn blocks(&mut self, inp: &[u8], junk: Option<&[u8]>, multi: bool) -> IoOut {
+    /// `inout`: use the `*_inout` entry points (a mode may override any provided method, so all are driven)
+    fn blocks(&mut self, inp: &[u8], junk: Option<&[u8]>, multi: bool, inout: bool) -> IoOut {
         IoOut::unsupported()
     }
     /// keystream written into a buffer (cores only): `write_keystream_block[s]`
@@ -73,7 +74,7 @@ pub trait Obj {
         IoOut::unsupported()
     }
     /// consuming one-shot call; op in {"async","cts","padded"}
-    fn oneshot(self: Box<Self>, op: &str, inp: &[u8], junk: Option<&[u8]>) -> IoOut {
+    fn oneshot(self: Box<Self>, op: &str, inp: &[u8], junk: Option<&[u8]>, inout: bool) -> IoOut {
         IoOut::unsupported()
     }
     fn seek(&mut self, t: &str, p: u128) -> Res {
@@ -141,10 +142,24 @@ pub trait EncMode: BlockModeEncrypt + ModeInfo {
     fn async_enc(self, _buf: InOutBuf<'_, '_, u8>) -> bool {
         false
     }
+    /// `AsyncStreamCipher::encrypt` (in place); false = not an AsyncStreamCipher
+    fn async_enc_inplace(self, _buf: &mut [u8]) -> bool {
+        false
+    }
+    /// `AsyncStreamCipher::encrypt_b2b`; None = not an AsyncStreamCipher, Some(false) = NotEqualError
+    fn async_enc_b2b(self, _i: &[u8], _o: &mut [u8]) -> Option<bool> {
+        None
+    }
 }
 pub trait DecMode: BlockModeDecrypt + ModeInfo {
     fn async_dec(self, _buf: InOutBuf<'_, '_, u8>) -> bool {
         false
+    }
+    fn async_dec_inplace(self, _buf: &mut [u8]) -> bool {
+        false
+    }
+    fn async_dec_b2b(self, _i: &[u8], _o: &mut [u8]) -> Option<bool> {
+        None
     }
 }
 
@@ -169,17 +184,24 @@ impl<M: EncMode + 'static> Obj for BlkEnc<M> {
     fn unit(&self) -> usize {
         M::BlockSize::USIZE
     }
-    fn blocks(&mut self, inp: &[u8], junk: Option<&[u8]>, multi: bool) -> IoOut {
+    fn blocks(&mut self, inp: &[u8], junk: Option<&[u8]>, multi: bool, inout: bool) -> IoOut {
         match junk {
             None => {
                 let mut buf = inp.to_vec();
                 {
                     let bl = as_blocks_mut::<M::BlockSize>(&mut buf);
-                    if multi {
-                        self.0.encrypt_blocks(bl);
-                    } else {
-                        for b in bl.iter_mut() {
-                            self.0.encrypt_block(b);
+                    match (multi, inout) {
+                        (true, false) => self.0.encrypt_blocks(bl),
+                        (true, true) => self.0.encrypt_blocks_inout(bl.into()),
+                        (false, false) => {
+                            for b in bl.iter_mut() {
+                                self.0.encrypt_block(b);
+                            }
+                        }
+                        (false, true) => {
+                            for b in bl.iter_mut() {
+                                self.0.encrypt_block_inout(b.into());
+                            }
                         }
                     }
                 }
@@ -190,6 +212,10 @@ impl<M: EncMode + 'static> Obj for BlkEnc<M> {
                 let ib = as_blocks::<M::BlockSize>(inp);
                 if multi {
                     let ob = as_blocks_mut::<M::BlockSize>(&mut out);
+                    if inout && ib.len() == ob.len() {
+                        self.0.encrypt_blocks_inout(InOutBuf::new(ib, ob).unwrap());
+                        return IoOut::ok(out);
+                    }
                     match self.0.encrypt_blocks_b2b(ib, ob) {
                         Ok(()) => IoOut::ok(out),
                         Err(_) => IoOut::err(out),
@@ -198,16 +224,36 @@ impl<M: EncMode + 'static> Obj for BlkEnc<M> {
                     assert_eq!(inp.len(), out.len());
                     let ob = as_blocks_mut::<M::BlockSize>(&mut out);
                     for (i, o) in ib.iter().zip(ob.iter_mut()) {
-                        self.0.encrypt_block_b2b(i, o);
+                        if inout {
+                            self.0.encrypt_block_inout((i, o).into());
+                        } else {
+                            self.0.encrypt_block_b2b(i, o);
+                        }
                     }
                     IoOut::ok(out)
                 }
             }
         }
     }
-    fn oneshot(self: Box<Self>, op: &str, inp: &[u8], junk: Option<&[u8]>) -> IoOut {
+    fn oneshot(self: Box<Self>, op: &str, inp: &[u8], junk: Option<&[u8]>, inout: bool) -> IoOut {
         let m = self.0;
         match (op, junk) {
+            ("async", None) if !inout => {
+                let mut buf = inp.to_vec();
+                if m.async_enc_inplace(&mut buf) {
+                    IoOut::ok(buf)
+                } else {
+                    IoOut::unsupported()
+                }
+            }
+            ("async", Some(j)) if !inout => {
+                let mut out = j.to_vec();
+                match m.async_enc_b2b(inp, &mut out) {
+                    Some(true) => IoOut::ok(out),
+                    Some(false) => IoOut::err(out),
+                    None => IoOut::unsupported(),
+                }
+            }
             ("async", None) => {
                 let mut buf = inp.to_vec();
                 if m.async_enc((&mut buf[..]).into()) {
@@ -292,17 +338,24 @@ impl<M: DecMode + 'static> Obj for BlkDec<M> {
     fn unit(&self) -> usize {
         M::BlockSize::USIZE
     }
-    fn blocks(&mut self, inp: &[u8], junk: Option<&[u8]>, multi: bool) -> IoOut {
+    fn blocks(&mut self, inp: &[u8], junk: Option<&[u8]>, multi: bool, inout: bool) -> IoOut {
         match junk {
             None => {
                 let mut buf = inp.to_vec();
                 {
                     let bl = as_blocks_mut::<M::BlockSize>(&mut buf);
-                    if multi {
-                        self.0.decrypt_blocks(bl);
-                    } else {
-                        for b in bl.iter_mut() {
-                            self.0.decrypt_block(b);
+                    match (multi, inout) {
+                        (true, false) => self.0.decrypt_blocks(bl),
+                        (true, true) => self.0.decrypt_blocks_inout(bl.into()),
+                        (false, false) => {
+                            for b in bl.iter_mut() {
+                                self.0.decrypt_block(b);
+                            }
+                        }
+                        (false, true) => {
+                            for b in bl.iter_mut() {
+                                self.0.decrypt_block_inout(b.into());
+                            }
                         }
                     }
                 }
@@ -313,6 +366,10 @@ impl<M: DecMode + 'static> Obj for BlkDec<M> {
                 let ib = as_blocks::<M::BlockSize>(inp);
                 if multi {
                     let ob = as_blocks_mut::<M::BlockSize>(&mut out);
+                    if inout && ib.len() == ob.len() {
+                        self.0.decrypt_blocks_inout(InOutBuf::new(ib, ob).unwrap());
+                        return IoOut::ok(out);
+                    }
                     match self.0.decrypt_blocks_b2b(ib, ob) {
                         Ok(()) => IoOut::ok(out),
                         Err(_) => IoOut::err(out),
@@ -321,16 +378,36 @@ impl<M: DecMode + 'static> Obj for BlkDec<M> {
                     assert_eq!(inp.len(), out.len());
                     let ob = as_blocks_mut::<M::BlockSize>(&mut out);
                     for (i, o) in ib.iter().zip(ob.iter_mut()) {
-                        self.0.decrypt_block_b2b(i, o);
+                        if inout {
+                            self.0.decrypt_block_inout((i, o).into());
+                        } else {
+                            self.0.decrypt_block_b2b(i, o);
+                        }
                     }
                     IoOut::ok(out)
                 }
             }
         }
     }
-    fn oneshot(self: Box<Self>, op: &str, inp: &[u8], junk: Option<&[u8]>) -> IoOut {
+    fn oneshot(self: Box<Self>, op: &str, inp: &[u8], junk: Option<&[u8]>, inout: bool) -> IoOut {
         let m = self.0;
         match (op, junk) {
+            ("async", None) if !inout => {
+                let mut buf = inp.to_vec();
+                if m.async_dec_inplace(&mut buf) {
+                    IoOut::ok(buf)
+                } else {
+                    IoOut::unsupported()
+                }
+            }
+            ("async", Some(j)) if !inout => {
+                let mut out = j.to_vec();
+                match m.async_dec_b2b(inp, &mut out) {
+                    Some(true) => IoOut::ok(out),
+                    Some(false) => IoOut::err(out),
+                    None => IoOut::unsupported(),
+                }
+            }
             ("async", None) => {
                 let mut buf = inp.to_vec();
                 if m.async_dec((&mut buf[..]).into()) {
@@ -479,11 +556,25 @@ impl<C: Ciph> EncMode for cfb_mode::Encryptor<C> {
         self.encrypt_inout(buf);
         true
     }
+    fn async_enc_inplace(self, buf: &mut [u8]) -> bool {
+        AsyncStreamCipher::encrypt(self, buf);
+        true
+    }
+    fn async_enc_b2b(self, i: &[u8], o: &mut [u8]) -> Option<bool> {
+        Some(AsyncStreamCipher::encrypt_b2b(self, i, o).is_ok())
+    }
 }
 impl<C: Ciph> DecMode for cfb_mode::Decryptor<C> {
     fn async_dec(self, buf: InOutBuf<'_, '_, u8>) -> bool {
         self.decrypt_inout(buf);
         true
+    }
+    fn async_dec_inplace(self, buf: &mut [u8]) -> bool {
+        AsyncStreamCipher::decrypt(self, buf);
+        true
+    }
+    fn async_dec_b2b(self, i: &[u8], o: &mut [u8]) -> Option<bool> {
+        Some(AsyncStreamCipher::decrypt_b2b(self, i, o).is_ok())
     }
 }
 impl<C: Ciph> EncMode for cfb8::Encryptor<C> {
@@ -491,11 +582,25 @@ impl<C: Ciph> EncMode for cfb8::Encryptor<C> {
         self.encrypt_inout(buf);
         true
     }
+    fn async_enc_inplace(self, buf: &mut [u8]) -> bool {
+        AsyncStreamCipher::encrypt(self, buf);
+        true
+    }
+    fn async_enc_b2b(self, i: &[u8], o: &mut [u8]) -> Option<bool> {
+        Some(AsyncStreamCipher::encrypt_b2b(self, i, o).is_ok())
+    }
 }
 impl<C: Ciph> DecMode for cfb8::Decryptor<C> {
     fn async_dec(self, buf: InOutBuf<'_, '_, u8>) -> bool {
         self.decrypt_inout(buf);
         true
+    }
+    fn async_dec_inplace(self, buf: &mut [u8]) -> bool {
+        AsyncStreamCipher::decrypt(self, buf);
+        true
+    }
+    fn async_dec_b2b(self, i: &[u8], o: &mut [u8]) -> Option<bool> {
+        Some(AsyncStreamCipher::decrypt_b2b(self, i, o).is_ok())
     }
 }
 
@@ -644,13 +749,15 @@ impl<K: CoreInfo + 'static> Obj for CoreObj<K> {
     fn unit(&self) -> usize {
         K::BlockSize::USIZE
     }
-    fn blocks(&mut self, inp: &[u8], junk: Option<&[u8]>, multi: bool) -> IoOut {
+    fn blocks(&mut self, inp: &[u8], junk: Option<&[u8]>, multi: bool, inout: bool) -> IoOut {
         match junk {
             None => {
                 let mut buf = inp.to_vec();
                 {
                     let bl = as_blocks_mut::<K::BlockSize>(&mut buf);
-                    if multi {
+                    if multi && inout {
+                        self.0.apply_keystream_blocks_inout(bl.into());
+                    } else if multi {
                         self.0.apply_keystream_blocks(bl);
                     } else {
                         for b in bl.iter_mut() {
@@ -928,17 +1035,18 @@ impl<T: cts::Encrypt + cts::Decrypt + Clone + 'static> Obj for CtsObj<T> {
     fn unit(&self) -> usize {
         1
     }
-    fn oneshot(self: Box<Self>, op: &str, inp: &[u8], junk: Option<&[u8]>) -> IoOut {
+    fn oneshot(self: Box<Self>, op: &str, inp: &[u8], junk: Option<&[u8]>, inout: bool) -> IoOut {
         if op != "cts" {
             return IoOut::unsupported();
         }
         match junk {
             None => {
                 let mut buf = inp.to_vec();
-                let r = if self.dec {
-                    self.t.decrypt(&mut buf)
-                } else {
-                    self.t.encrypt(&mut buf)
+                let r = match (self.dec, inout) {
+                    (true, false) => self.t.decrypt(&mut buf),
+                    (true, true) => self.t.decrypt_inout((&mut buf[..]).into()),
+                    (false, false) => self.t.encrypt(&mut buf),
+                    (false, true) => self.t.encrypt_inout((&mut buf[..]).into()),
                 };
                 match r {
                     Ok(()) => IoOut::ok(buf),
@@ -947,10 +1055,11 @@ impl<T: cts::Encrypt + cts::Decrypt + Clone + 'static> Obj for CtsObj<T> {
             }
             Some(j) => {
                 let mut out = j.to_vec();
-                let r = if self.dec {
-                    self.t.decrypt_b2b(inp, &mut out)
-                } else {
-                    self.t.encrypt_b2b(inp, &mut out)
+                let r = match (self.dec, inout && inp.len() == out.len()) {
+                    (true, false) => self.t.decrypt_b2b(inp, &mut out),
+                    (true, true) => self.t.decrypt_inout(InOutBuf::new(inp, &mut out[..]).unwrap()),
+                    (false, false) => self.t.encrypt_b2b(inp, &mut out),
+                    (false, true) => self.t.encrypt_inout(InOutBuf::new(inp, &mut out[..]).unwrap()),
                 };
                 match r {
                     Ok(()) => IoOut::ok(out),
